@@ -3,5 +3,8 @@ package main
 // runExtras: checkers that are not SMT obligations (bounded stand-ins, enumerations over go/types)
 func runExtras(e *Engine, prop, tier string) []*extraResult {
 	var out []*extraResult
+	if prop == "C20" {
+		out = append(out, e.checkAcceptCompleteness())
+	}
 	return out
 }
